@@ -65,10 +65,11 @@ func init() {
 			} else {
 				ps = append(ps,
 					Param{Name: "ws-n2-p1", Bound: 3, V: map[string]int{"n": 2, "ws": 1, "phases": 1}},
-					Param{Name: "ws-n3-p1", Bound: 2, V: map[string]int{"n": 3, "ws": 1, "phases": 1}},
-					Param{Name: "ws-n2-p2", Bound: 2, V: map[string]int{"n": 2, "ws": 1, "phases": 2}},
-					Param{Name: "http-n3", Bound: 2, V: map[string]int{"n": 3, "ws": 0, "phases": 1}},
-					Param{Name: "http-n4", Bound: 1, V: map[string]int{"n": 4, "ws": 0, "phases": 1}},
+					Param{Name: "ws-n3-p1", Bound: 3, V: map[string]int{"n": 3, "ws": 1, "phases": 1}},
+					Param{Name: "ws-n2-p2", Bound: 3, V: map[string]int{"n": 2, "ws": 1, "phases": 2}},
+					Param{Name: "ws-n4-p1", Bound: 1, V: map[string]int{"n": 4, "ws": 1, "phases": 1}},
+					Param{Name: "http-n3", Bound: 3, V: map[string]int{"n": 3, "ws": 0, "phases": 1}},
+					Param{Name: "http-n4", Bound: 2, V: map[string]int{"n": 4, "ws": 0, "phases": 1}},
 				)
 			}
 			return ps
